@@ -118,6 +118,24 @@ impl<'a> World<'a> {
         repo.sign_refs(&self.actors[actor].signer).expect("sign_refs");
     }
 
+    /// Set (or delete) any ref of `actor` in the serving repository and re-sign honestly.
+    pub fn push_ref(&mut self, actor: usize, refname: &str, oid: Option<Oid>) {
+        self.tick();
+        let repo = self.server_repo();
+        let name = ns_ref(&self.actors[actor].nid, refname);
+        match oid {
+            Some(oid) => {
+                repo.backend.reference(&name, *oid, true, "sim push").expect("reference");
+            }
+            None => {
+                if let Ok(mut r) = repo.backend.find_reference(&name) {
+                    r.delete().expect("delete ref");
+                }
+            }
+        }
+        repo.sign_refs(&self.actors[actor].signer).expect("sign_refs");
+    }
+
     /// All refs of a repository grouped by namespace, read with libgit2 only.
     pub fn snapshot(repo: &git2::Repository) -> Snap {
         let mut snap: Snap = BTreeMap::new();
@@ -422,6 +440,43 @@ impl<'a> World<'a> {
                 };
                 match self.ch.weighted(&w) {
                     0 => {}
+                    1 if self.ch.pick(3) == 2 => {
+                        // other honest owner actions: rewind a branch, create or delete a tag or a second branch
+                        let nid = self.actors[a].nid.to_string();
+                        let mine = Self::snapshot(&self.server_repo().backend).get(&nid).cloned().unwrap_or_default();
+                        let n = self.actors[a].name.clone();
+                        match self.ch.pick(4) {
+                            0 => {
+                                // force-push master back to its parent
+                                let repo = self.server_repo();
+                                let cur = mine.get("refs/heads/master").copied();
+                                let parent = cur.and_then(|c| repo.backend.find_commit(*c).ok()).and_then(|c| c.parent_id(0).ok()).map(Oid::from);
+                                if let Some(p) = parent {
+                                    self.push_ref(a, "refs/heads/master", Some(p));
+                                    self.res.hit("probe.fetch.owner_rewound_branch");
+                                    let cn = self.cname(&p);
+                                    self.res.trace.log("push-rewind", format!("{n} rewinds master to {cn} and signs"));
+                                }
+                            }
+                            1 | 2 => {
+                                let name = *self.ch.choose(&["refs/tags/v1", "refs/tags/v2", "refs/heads/feature", "refs/notes/commits"]);
+                                let c = self.commits[self.ch.pick_usize(self.commits.len())];
+                                self.push_ref(a, name, Some(c));
+                                self.res.hit("probe.fetch.owner_set_other_ref");
+                                let cn = self.cname(&c);
+                                self.res.trace.log("push-other", format!("{n} sets {name}={cn} and signs"));
+                            }
+                            _ => {
+                                let others: Vec<String> = mine.keys().filter(|k| k.starts_with("refs/tags/") || k.starts_with("refs/notes/") || k.as_str() == "refs/heads/feature").cloned().collect();
+                                if !others.is_empty() {
+                                    let name = others[self.ch.pick_usize(others.len())].clone();
+                                    self.push_ref(a, &name, None);
+                                    self.res.hit("probe.fetch.owner_deleted_ref");
+                                    self.res.trace.log("push-delete", format!("{n} deletes {name} and signs"));
+                                }
+                            }
+                        }
+                    }
                     1 => {
                         let parent = *self.commits.last().unwrap();
                         let from = if self.ch.pick(3) == 0 { self.commits[self.ch.pick_usize(self.commits.len())] } else { parent };
